@@ -278,11 +278,16 @@ class Engine:
 
     def load(self, st, p, nbytes, isptr=False):
         if isinstance(p, PtrIte):
+            # a side whose guard the path condition excludes is not accessed (it may be null or dangling)
+            (t_ok, _mt), (f_ok, _mf) = self.feasible(st, p.c)
+            if not f_ok: return self.load(st, p.a, nbytes, isptr)
+            if not t_ok: return self.load(st, p.b, nbytes, isptr)
             x = self.load(st, p.a, nbytes, isptr); y = self.load(st, p.b, nbytes, isptr)
             if isinstance(x, Ptr) and isinstance(y, Ptr):
                 return x if x == y else PtrIte(p.c, x, y)
             if isinstance(x, (Undef, PV)) or isinstance(y, (Undef, PV)) or isinstance(x, (Ptr, PtrIte)) or isinstance(y, (Ptr, PtrIte)):
-                raise Unsupported("load through guarded pointer of non-plain value")
+                # the two targets hold values that cannot be merged into one term: decide the guard (forks, re-executing the instruction)
+                return x if self.branch_inline(st, p.c) else y
             return simp(z3.If(p.c, bv(x, nbytes*8), bv(y, nbytes*8)))
         if p.obj == 0: raise Violation('null-deref', f"load through null pointer (offset {p.off})")
         o = self.getobj(st, p.obj)
@@ -345,6 +350,9 @@ class Engine:
 
     def store(self, st, p, nbytes, v):
         if isinstance(p, PtrIte):
+            (t_ok, _mt), (f_ok, _mf) = self.feasible(st, p.c)
+            if not f_ok: return self.store(st, p.a, nbytes, v)
+            if not t_ok: return self.store(st, p.b, nbytes, v)
             x = self.load(st, p.a, nbytes); y = self.load(st, p.b, nbytes)
             if any(isinstance(t, (Ptr, PtrIte, Undef, PV)) for t in (x, y, v)): raise Unsupported("store through guarded pointer of non-plain value")
             self.store(st, p.a, nbytes, simp(z3.If(p.c, bv(v, nbytes*8), bv(x, nbytes*8))))
@@ -1062,6 +1070,7 @@ class Engine:
 
     def gep(self, st, fr, p, bt, idxs):
         M = self.M
+        if isinstance(p, PtrIte): return PtrIte(p.c, self.gep(st, fr, p.a, bt, idxs), self.gep(st, fr, p.b, bt, idxs))
         off = p.off; t = bt; first = True
         for (it, iv) in idxs:
             v = self.use(st, self.val(fr, iv, it), 'index of address computation')
@@ -1137,6 +1146,11 @@ class Engine:
             for pre, fn_ in self.prefix_stubs:
                 if name.startswith(pre): stub = fn_; break
         if stub is not None:
+            # stubs work on plain pointers: decide the guard of a guarded pointer argument first (forks, re-executing the call)
+            for i_, a_ in enumerate(argv):
+                while isinstance(a_, PtrIte):
+                    a_ = a_.a if self.branch_inline(st, a_.c) else a_.b
+                    argv[i_] = a_
             st.x['_log'] = ()
             r = stub(self, st, argv)
             if dst: fr.env[dst] = r
